@@ -137,7 +137,11 @@ impl FeatureRangeFn {
 
                         use ::core::iter::Iterator;
                         #ident_iter_struct {
-                            inner: Self::#ident_table_enum[start_idx..=end_idx].iter().copied(),
+                            inner: if start_idx > end_idx {
+                                Self::#ident_table_enum[0..0].iter().copied()
+                            } else {
+                                Self::#ident_table_enum[start_idx..=end_idx].iter().copied()
+                            },
                         }
                     }
                 },
@@ -203,7 +207,11 @@ impl FeatureRangeFn {
 
                         use ::core::iter::Iterator;
                         #ident_iter_struct {
-                            inner: Self::#ident_table_enum[start_idx..=end_idx].iter().copied(),
+                            inner: if start_idx > end_idx {
+                                Self::#ident_table_enum[0..0].iter().copied()
+                            } else {
+                                Self::#ident_table_enum[start_idx..=end_idx].iter().copied()
+                            },
                         }
                     }
                 },
